@@ -10,6 +10,7 @@ structure SSt where
   lt : Nat → Nat → Bool
   pool : List (SSet Nat)
   tr : Bool := false          -- does the set type claim to be trivially relocatable?
+  lt2 : Nat → Nat → Bool := fun a b => a > b   -- comparator of the other-typed source of `mrgx`
   mods : List Nat := []       -- cmp=mix: the state of the comparator OBJECT of each set (it compares `v % m`); travels with
                               -- swap / copy / move assignment like the comparator object of a std::set
 
@@ -19,6 +20,7 @@ def cmpFor : String → Option (Nat → Nat → Bool)
   | "mod" => some fun a b => a % 5 < b % 5
   | "stateful" => some fun a b => a % 7 < b % 7
   | "mix" => some fun a b => a % 7 < b % 7
+  | "transp" => some fun a b => a < b
   | _ => none
 
 def parseSetCfg (toks : List String) : Option SSt := do
@@ -28,7 +30,8 @@ def parseSetCfg (toks : List String) : Option SSt := do
   let pool := ((kv toks "pool").bind String.toNat?).getD 3
   let tr := (kv toks "tr").getD "0" == "1"
   let mods := if (kv toks "cmp").getD "less" == "mix" then (List.range pool).map (fun c => 7 + 3 * c) else []
-  pure { small := small, n := n, lt := lt, pool := List.replicate pool ⟨[], []⟩, tr := tr, mods := mods }
+  let lt2 : Nat → Nat → Bool := if (kv toks "cmp").getD "less" == "greater" then (fun a b => a < b) else (fun a b => a > b)
+  pure { small := small, n := n, lt := lt, pool := List.replicate pool ⟨[], []⟩, tr := tr, mods := mods, lt2 := lt2 }
 
 def SSt.get (s : SSt) (c : Nat) : SSet Nat := s.pool[c]?.getD ⟨[], []⟩
 def SSt.put (s : SSt) (c : Nat) (x : SSet Nat) : SSt := { s with pool := s.pool.set c x }
@@ -80,6 +83,21 @@ def setStep (s : SSt) (toks : List String) : String × String × Option Nat × S
     let skip : String × String × Option Nat × SSt := ("skip", "-", some 0, s)
     -- byte-wise relocation of the container object: invisible to the model (no part of its state depends on an address)
     if op == "reloc" then (if s.tr then ("ok", "-", some 0, s) else skip) else
+    -- heterogeneous lookups (cmp=transp): the key `Band d` is equivalent to every element v with v / 4 = d
+    if op == "hfind" || op == "hhas" || op == "hcnt" || op == "hlb" || op == "hub" then
+      let d := nat (rest.headD "0")
+      let band := es.filter (fun v => v / 4 == d)
+      match op with
+      | "hfind" => ("ok", if band.isEmpty then "end" else "in-band", none, s)
+      | "hhas" => ("ok", if band.isEmpty then "0" else "1", none, s)
+      | "hcnt" => ("ok", toString band.length, none, s)
+      | "hlb" => if s.small then ("bad-op", "-", none, s) else
+          let i := (es.takeWhile (fun v => v / 4 < d)).length
+          ("ok", s!"{valAt es i}@{i}", none, s)
+      | _ => if s.small then ("bad-op", "-", none, s) else
+          let i := (es.takeWhile (fun v => !(d < v / 4))).length
+          ("ok", s!"{valAt es i}@{i}", none, s)
+    else
     if s.small then
       -- ------------------------------------------------------------------ SmallSet
       match op, rest with
@@ -113,6 +131,11 @@ def setStep (s : SSt) (toks : List String) : String × String × Option Nat × S
       | "mrg", [d] => if c == nat d then skip else
           let r := x.merge lt s.n (s.get (nat d))
           ("ok", "-", none, (s.put c r.1).put (nat d) r.2)
+      | "mrgx", [vs] =>
+          -- the source is a SmallSet of another type: comparator type `lt2`, inline capacity N + 2
+          let tmp := (natList vs).foldl (fun (t : SSet Nat) v => (t.insert s.lt2 (s.n + 2) v).1) ⟨[], []⟩
+          let r := x.merge lt s.n tmp
+          ("ok", s!"[{showList r.2.elems}]", none, s.put c r.1)
       | "xfer", [d, v] => if c == nat d then skip else
           let o := s.get (nat d)
           let oes := s.elemsOf o
@@ -180,6 +203,9 @@ def setStep (s : SSt) (toks : List String) : String × String × Option Nat × S
       | "mrg", [d] => if c == nat d then skip else
           let r := mergeFrom lt l (s.get (nat d)).set
           ("ok", "-", none, (putL r.1).put (nat d) ⟨[], r.2⟩)
+      | "mrgx", [vs] =>
+          let r := mergeFrom lt l (insertAll s.lt2 [] (natList vs))
+          ("ok", s!"[{showList r.2}]", none, putL r.1)
       | "xfer", [d, v] => if c == nat d then skip else
           let ol := (s.get (nat d)).set
           match (findC (s.ltOf (nat d)) ol (nat v)).1 with
